@@ -123,6 +123,13 @@ func (this *FPAQEncoder) encodeBit(bit byte, p *int) {
 func (this *FPAQEncoder) Write(block []byte) (int, error) {
 	count := len(block)
 
+	if count == 0 {
+		// Nothing is encoded for an empty block: no pending bits to flush in Dispose
+		// (the decoder does not read anything for an empty block either)
+		this.disposed = true
+		return 0, nil
+	}
+
 	if count > 1<<30 {
 		return 0, fmt.Errorf("FPAQ codec: Invalid block size parameter (max is 1<<30): got %v", count)
 	}
